@@ -91,7 +91,8 @@ def build(props, cfgs):
     cmd = ["cargo", f"+{TOOLCHAIN}", "build", "--release", "--offline", "-j", JOBS]
     for p in props:
         cmd += ["--bin", p.lower()]
-    sh(cmd, cwd=os.path.join(ROOT, "harness"), env={"RUSTFLAGS": FLAGS, "RUSTC_WRAPPER": WRAPPER, "CARGO_TARGET_DIR": os.path.join(TGT, "harness")})
+    sh(cmd, cwd=os.path.join(ROOT, "harness"), env={"RUSTFLAGS": FLAGS, "RUSTC_WRAPPER": WRAPPER, "LLVM_PROFILE_FILE": os.path.join(TGT, "build-%p.profraw"), "CARGO_TARGET_DIR": os.path.join(TGT, "harness"),
+                                                   "COV_EXTRA_FLAGS": "-Zinline-mir=no" if "nightly" in TOOLCHAIN else ""})
     log(f"instrumented harness build: {time.time() - t:.0f}s")
     if any(cfgs[p].get("needs_jet") for p in props):
         t = time.time()
@@ -100,7 +101,7 @@ def build(props, cfgs):
             log(f"LLVM major versions differ: tools {llvm(TOOLCHAIN)} ({TOOLCHAIN}), jet1090 built with {llvm(JET_TOOLCHAIN)}; set COV_JET_TOOLCHAIN")
             sys.exit(2)
         sh(["cargo"] + ([f"+{JET_TOOLCHAIN}"] if JET_TOOLCHAIN else []) + ["build", "--offline", "-j", JOBS, "-p", "jet1090"], cwd=REPO,
-           env={"RUSTFLAGS": FLAGS, "RUSTC_WRAPPER": WRAPPER, "CARGO_TARGET_DIR": os.path.join(TGT, "jet")})
+           env={"RUSTFLAGS": FLAGS, "RUSTC_WRAPPER": WRAPPER, "LLVM_PROFILE_FILE": os.path.join(TGT, "build-%p.profraw"), "CARGO_TARGET_DIR": os.path.join(TGT, "jet")})
         log(f"instrumented jet1090 build: {time.time() - t:.0f}s")
 
 
@@ -195,7 +196,7 @@ def report(prop, pins, lines, regions, meta):
            f"corpus replays included). Lines = lines that carry a coverage counter (`llvm-cov export -format=lcov`); code generated "
            "by derive macros (deku readers, serde) has no counters and is not counted. `unhit regions` are branches with count 0 "
            "inside lines that count as hit.", ""]
-    tot_e = tot_h = 0
+    tot_e = tot_h = tot_r = tot_rh = 0
     per_file, not_linked, details = [], [], []
     for f in sorted(pins):
         path = os.path.realpath(os.path.join(REPO, f))
@@ -216,6 +217,8 @@ def report(prop, pins, lines, regions, meta):
             ur = sorted(k for k, c in fr.items() if c == 0 and a <= k[0] <= b and not all(
                 (l in (fl or {}) and fl[l] == 0) for l in range(k[0], k[2] + 1) if l in (fl or {})))
             fe += len(ex); fh += len(hit)
+            rs_ = [c for k, c in fr.items() if a <= k[0] <= b]
+            tot_r += len(rs_); tot_rh += sum(1 for c in rs_ if c > 0)
             pct = f"{100.0 * len(hit) / len(ex):.0f}" if ex else "–"
             rows.append(f"| `{clip(item, 70)}` | {a}-{b} | {len(ex)} | {len(hit)} | {pct} | {fmt_runs(unhit) or ''} |")
             if unhit or ur:
@@ -246,7 +249,9 @@ def report(prop, pins, lines, regions, meta):
         out.append("")
         per_file.append((f, fe, fh))
     pct = 100.0 * tot_h / tot_e if tot_e else 0.0
-    out.insert(4, f"**Total: {tot_h} / {tot_e} executable pinned lines hit ({pct:.1f} %).**" +
+    rpct = 100.0 * tot_rh / tot_r if tot_r else 0.0
+    out.insert(4, f"**Total: {tot_h} / {tot_e} executable pinned lines hit ({pct:.1f} %); {tot_rh} / {tot_r} code regions "
+               f"(branches, `?` exits, closures) entered ({rpct:.1f} %).**" +
                (f" Not compiled into the run (no counters, excluded): {', '.join(not_linked)}." if not_linked else ""))
     out.insert(5, "")
     out.append("## Unhit lines and regions")
@@ -261,7 +266,7 @@ def report(prop, pins, lines, regions, meta):
         out.append("")
     os.makedirs(NOTES, exist_ok=True)
     open(os.path.join(NOTES, f"{prop}.md"), "w").write("\n".join(out))
-    return {"executable": tot_e, "hit": tot_h, "pct": round(pct, 1), "cases": meta["cases"], "secs": round(meta["secs"], 1),
+    return {"executable": tot_e, "hit": tot_h, "pct": round(pct, 1), "regions": tot_r, "regions_hit": tot_rh, "regions_pct": round(rpct, 1), "cases": meta["cases"], "secs": round(meta["secs"], 1),
             "not_compiled": not_linked, "files": {f: [e, h] for f, e, h in per_file}}
 
 
@@ -300,7 +305,7 @@ def main():
         lines, regions = export(p, cfgs[p].get("needs_jet"))
         res = report(p, pins[p], lines, regions, meta)
         summary.setdefault(opt["--label"], {})[p] = res
-        print(f"{p}: {res['hit']}/{res['executable']} pinned executable lines hit ({res['pct']} %), {res['cases']} cases, {res['secs']} s")
+        print(f"{p}: {res['hit']}/{res['executable']} pinned executable lines hit ({res['pct']} %), regions {res['regions_hit']}/{res['regions']} ({res['regions_pct']} %), {res['cases']} cases, {res['secs']} s")
         os.makedirs(NOTES, exist_ok=True)
         json.dump(summary, open(sp, "w"), indent=1, sort_keys=True)
 
